@@ -1666,7 +1666,7 @@ def sig_limits(case, bad, trace):
 # ----------------------------------------------------------------------------------------
 # controllers of one output
 # ----------------------------------------------------------------------------------------
-def build_control_classes(case):
+def build_control_classes(case, cur=None):
     from frappy.core import FloatRange, Parameter, Writable, Drivable
     from frappy.mixins import HasControlledBy, HasOutputModule
     base = Drivable if case['drivable'] else Writable
@@ -1684,6 +1684,15 @@ def build_control_classes(case):
         target = Parameter('t', FloatRange(), default=0)
         value = Parameter('v', FloatRange(), default=0)
 
+        def set_control_active(self, active):
+            """the driver's method "for switching hw control": scripted to raise before or after the module is marked"""
+            fault = (cur or {}).get('faults', {}).pop((self.name, bool(active)), None)
+            if fault and fault[0] == 'before':
+                raise_kind(fault[1])
+            super().set_control_active(active)
+            if fault and fault[0] == 'after':
+                raise_kind(fault[1])
+
         def write_target(self, value):
             if not (guarded and self.control_active):
                 self.activate_control()
@@ -1692,9 +1701,19 @@ def build_control_classes(case):
     return Out, In
 
 
+def control_faults(op):
+    """the scripted outcomes of the set_control_active calls during one operation: [[input, active, 'before' | 'after', exception], …]"""
+    return op[-2] if len(op) >= 3 and isinstance(op[-2], list) else []
+
+
+def control_plain(op):
+    return op[:-2] if len(op) >= 3 and isinstance(op[-2], list) else op[:-1]
+
+
 def impl_control(case):
     """several outputs in one node, input k attached to output case['outs'][k]"""
-    Out, In = build_control_classes(case)
+    cur = {}
+    Out, In = build_control_classes(case, cur)
     outs_of = case['outs']
     n, nout = len(outs_of), case['nout']
     cfg = {}
@@ -1732,6 +1751,9 @@ def impl_control(case):
     for op in case['ops']:
         kind, via = op[0], op[-1]
         ok = True
+        cur['faults'] = {}
+        for i, active, how, exc in control_faults(op):
+            cur['faults'].setdefault((f'in{i}', bool(active)), (how, exc))     # the first entry for a call counts
         try:
             if kind == 'writeIn':
                 if via == 'req':
@@ -1755,6 +1777,7 @@ def impl_control(case):
                 raise ValueError(kind)
         except Exception:
             ok = False
+        cur.clear()
         trace.append(snapshot(ok))
     return trace
 
@@ -1762,10 +1785,8 @@ def impl_control(case):
 def wire_control_ops(case):
     ops = []
     for op in case['ops']:
-        if op[0] == 'writeIn':
-            ops.append(['writeIn', op[1], case['guarded']])
-        else:
-            ops.append(op[:-1])
+        plain = ['writeIn', op[1], case['guarded']] if op[0] == 'writeIn' else control_plain(op)
+        ops.append({'op': plain, 'faults': [[i, bool(active), how] for i, active, how, _ in control_faults(op)]})
     return ops
 
 
@@ -1780,23 +1801,45 @@ def gen_control(rng, big):
     rng.shuffle(outs)
     n = len(outs)
     ops = []
+    # 35 % of the histories with faults: the drivers' set_control_active ("to be overridden for switching hw control") raises
+    # during some of the operations, before or after the module is marked.  `ctl` = who would control each output if nothing
+    # failed: half of the faults are aimed at the previous controller of a take-over, the others fall anywhere
+    faulty = rng.random() < 0.35
+    ctl = [None] * nout
+
+    def faults(op):
+        if not faulty or rng.random() < 0.6:
+            return []
+        res = []
+        o = outs[op[1]] if op[0] in ('writeIn', 'activate', 'deactivate') else op[1]
+        if ctl[o] is not None and rng.random() < 0.5:
+            res.append([ctl[o], False, rng.choice(['before', 'after']), fail_tag(rng)])
+        while not res or rng.random() < 0.25:
+            res.append([rng.randrange(n), rng.random() < 0.4, rng.choice(['before', 'after']), fail_tag(rng)])
+        return [e for j, e in enumerate(res) if e[:2] not in [x[:2] for x in res[:j]]]
+
     for _ in range(rng.randint(1, 30 if big else 12)):
         via = rng.choice(['req', 'call'])
         r = rng.random()
         k = rng.randrange(n)
         o = rng.randrange(nout)
         if r < 0.4:
-            ops.append(['writeIn', k, via])
+            op = ['writeIn', k]
         elif r < 0.55:
-            ops.append(['writeOut', o, via])
+            op = ['writeOut', o]
         elif r < 0.7:
-            ops.append(['activate', k, 'drv'])
+            op, via = ['activate', k], 'drv'
         elif r < 0.78:
-            ops.append(['deactivate', k, 'drv'])
+            op, via = ['deactivate', k], 'drv'
         elif r < 0.88:
-            ops.append(['selfControlled', o, 'drv'])
+            op, via = ['selfControlled', o], 'drv'
         else:
-            ops.append(['updateTarget', o, k, 'drv'])
+            op, via = ['updateTarget', o, k], 'drv'
+        ops.append(op + [faults(op), via])
+        if op[0] in ('writeIn', 'activate'):
+            ctl[outs[k]] = k
+        elif op[0] in ('writeOut', 'selfControlled'):
+            ctl[o] = None
     return {'kind': 'control', 'nout': nout, 'outs': outs, 'guarded': rng.random() < 0.6, 'drivable': rng.random() < 0.4,
             'ops': ops}
 
@@ -1833,7 +1876,7 @@ def prepare(case):
         return trace, {'p': 'C18', 'k': 'control', 'nout': case['nout'], 'outs': case['outs'], 'omit': bool(case.get('omit')),
                        'cbP0': trace[0]['cbP'], 'actP0': trace[0]['actP'], 'ops': ops}, \
             {'p': 'C18', 'k': 'judge_control', 'nout': case['nout'], 'outs': case['outs'], 'ops': ops,
-             'trace': [{'cb': t['cb'], 'act': t['act']} for t in trace]}, trace
+             'trace': [{'cb': t['cb'], 'act': t['act'], 'ok': t['ok']} for t in trace]}, trace
     raise ValueError(kind)
 
 
@@ -1919,7 +1962,7 @@ def signature(case, bad, trace):
         return sig_limits(case, bad, trace)
     if bad == 0:
         return 'C18:control:initial'
-    return 'C18:control:' + case['ops'][bad - 1][0]
+    return 'C18:control:' + case['ops'][bad - 1][0] + ('' if trace[bad]['ok'] else ':operation-failed-half-way')
 
 
 def linked_values(case, t):
@@ -1973,7 +2016,8 @@ def nontrivial(case, trace):
         rej = any(t['write'] is not None and not t['ok'] for t in trace)
         moved = len({json.dumps(t['after']) for t in trace}) >= 2
         return acc and rej and moved
-    return len({json.dumps([t['cb'], t['act']]) for t in trace}) >= 3 and fails == 0
+    return len({json.dumps([t['cb'], t['act']]) for t in trace}) >= 3 and \
+        (fails == 0 or any(control_faults(op) for op in case['ops']))
 
 
 SAMPLES_PER_KIND = {'struct': 2, 'floatenum': 1, 'limits': 1, 'control': 2, 'labels': 1}
@@ -2169,6 +2213,12 @@ def _run_chunk(ctx, res, cases, offset, ncorpus, shrunk):
         if kind == 'labels':
             res.count('labels.accepted' if trace[0]['ok'] else 'labels.refused')
             res.count(f'labels.n-{len(case["labels"])}')
+        if kind == 'control':
+            if any(control_faults(op) for op in case['ops']):
+                res.count('control.histories-with-failing-set_control_active')
+            for op, t in zip(case['ops'], trace[1:]):
+                if control_faults(op):
+                    res.count('control.op-with-scripted-fault-' + ('returned' if t['ok'] else 'failed-half-way'))
         if kind == 'limits':
             lay = limits_case(case)['layers']
             res.count(f'limits.classes-{len(lay)}')
